@@ -137,7 +137,7 @@ def parse_directive(block):
         raise AssembleError("bad extract header: " + head)
     d = {"file": m.group(1), "impl_re": m.group(2), "kind": m.group(3), "name": m.group(4).strip(),
          "ret": None, "rename": None, "prefix": "", "body": None, "auto": True, "canary": True,
-         "rewrites": [], "contract": "", "loops": {}, "before": [], "after": [], "top": "", "bottom": "", "after_loops": {}, "sig": None,
+         "rewrites": [], "contract": "", "loops": {}, "before": [], "after": [], "top": "", "bottom": "", "after_loops": {}, "loop_ends": {}, "sig": None,
          "class": "prop"}
     cur = None
     buf = []
@@ -162,6 +162,8 @@ def parse_directive(block):
             d["bottom"] = txt
         elif kind == "after_loop":
             d["after_loops"][cur[1]] = txt
+        elif kind == "loop_end":
+            d["loop_ends"][cur[1]] = txt
         elif kind == "sig":
             d["sig"] = txt
         cur = None
@@ -194,6 +196,10 @@ def parse_directive(block):
         mm = re.match(r"after_loop\s+(\d+):\s*$", s)
         if mm:
             cur = ("after_loop", int(mm.group(1)))
+            continue
+        mm = re.match(r"loop_end\s+(\d+):\s*$", s)
+        if mm:
+            cur = ("loop_end", int(mm.group(1)))
             continue
         if s == "bottom:":
             cur = ("bottom",)
@@ -327,13 +333,16 @@ def build_item(d, canary=False, repo=REPO):
         return out, meta
     # loops: insert from the last to the first so offsets stay valid
     loops = find_loops(body)
-    for n in sorted(set(d["loops"].keys()) | set(d["after_loops"].keys()), reverse=True):
+    for n in sorted(set(d["loops"].keys()) | set(d["after_loops"].keys()) | set(d["loop_ends"].keys()), reverse=True):
         if n < 1 or n > len(loops):
             raise AssembleError("loop %d anchor lost in %s: function has %d loops" % (n, where, len(loops)))
         lp = find_loops(body)[n - 1]  # recomputed: earlier insertions (inner loops) shift later offsets
         if n in d["after_loops"]:
             e = lp["end_pos"] + 1
             body = body[:e] + "\n" + d["after_loops"][n].rstrip() + "\n" + body[e:]
+        if n in d["loop_ends"]:
+            e = lp["end_pos"]
+            body = body[:e] + "\n" + d["loop_ends"][n].rstrip() + "\n" + body[e:]
         if n not in d["loops"]:
             continue
         spec = d["loops"][n]
